@@ -430,4 +430,204 @@ theorem slot_always_freeable {n : Node} (hr : Reach n) {r : Held} (hrx : n.rx = 
   · left
     exact sweepOrphan_node hrx (sweepOrphan_eval_none hi.tinv hnone _ _)
 
+/-! ## Liveness under an explicit fairness hypothesis -/
+
+/-- an infinite run of the node (the scheduler's choices are the sequence `op`) -/
+structure Run where
+  st : Nat → Node
+  op : Nat → Op
+  next : ∀ k, st (k + 1) = (step (st k) (op k)).1
+  reach0 : Reach (st 0)
+  /-- fewer than 2^28 sessions are ever created -/
+  noWrap : ∀ k, (st k).t.nextUid < 0x0fffffff
+
+/-- **Fairness hypothesis** (not proved — it is the executor's and the timers' obligation): from every
+point of the run the accept-timeout sweeper is polled again before `pollA` more milliseconds have
+passed (`process_accept_timeout_rx` re-arms a 50 ms timer) and the orphan sweeper before `pollO`
+(`process_orphaned_rx` is woken by every change of the RX slot / session table). In particular the
+clock does not jump over a poll. -/
+def SweepFair (ρ : Run) (pollA pollO : Nat) : Prop :=
+  (∀ k, ∃ j, k ≤ j ∧ ρ.op j = .sweepAccept ∧ (ρ.st j).now ≤ (ρ.st k).now + pollA) ∧
+  (∀ k, ∃ j, k ≤ j ∧ ρ.op j = .sweepOrphan ∧ (ρ.st j).now ≤ (ρ.st k).now + pollO)
+
+/-- time does not stop -/
+def TimeDiverges (ρ : Run) : Prop := ∀ T, ∃ j, T ≤ (ρ.st j).now
+
+/-- some live `Exchange` can claim the message -/
+def OwnedClaim (n : Node) (m : Msg) : Prop :=
+  ∃ s ∈ n.t.sessions, ∃ i e, s.isForRx m.port m.sid = true ∧ s.slot i = some e ∧ e.isForRx m.hdr = true ∧
+    RoleSt.isOwned e.role = true
+
+theorem Run.reach (ρ : Run) : ∀ k, Reach (ρ.st k) := by
+  intro k
+  induction k with
+  | zero => exact ρ.reach0
+  | succ k ih => rw [ρ.next k]; exact Reach.step _ ih (ρ.noWrap k)
+
+theorem Run.now_mono (ρ : Run) (j : Nat) : ∀ d, (ρ.st j).now ≤ (ρ.st (j + d)).now := by
+  intro d
+  induction d with
+  | zero => exact Nat.le_refl _
+  | succ d ih =>
+    have : ρ.st (j + (d + 1)) = (step (ρ.st (j + d)) (ρ.op (j + d))).1 := ρ.next (j + d)
+    rw [this]
+    exact Nat.le_trans ih (now_step _ _).1
+
+theorem Run.now_le (ρ : Run) {i j : Nat} (h : i ≤ j) : (ρ.st i).now ≤ (ρ.st j).now := by
+  have := ρ.now_mono i (j - i)
+  rwa [Nat.add_sub_cancel' h] at this
+
+/-- a waiting message stays until the slot is emptied -/
+theorem Run.persist (ρ : Run) {j : Nat} {x : Held} (hx : (ρ.st j).rx = some x) :
+    ∀ d, (∃ i, j ≤ i ∧ i < j + d ∧ (ρ.st (i + 1)).rx = none) ∨ (ρ.st (j + d)).rx = some x := by
+  intro d
+  induction d with
+  | zero => exact Or.inr hx
+  | succ d ih =>
+    rcases ih with ⟨i, h1, h2, h3⟩ | h
+    · exact Or.inl ⟨i, h1, by omega, h3⟩
+    · have hn : ρ.st (j + d + 1) = (step (ρ.st (j + d)) (ρ.op (j + d))).1 := ρ.next (j + d)
+      rcases rx_step (ρ.st (j + d)) (ρ.op (j + d)) with h1 | h1 | h1
+      · right; show (ρ.st (j + d + 1)).rx = some x; rw [hn, h1]; exact h
+      · left; exact ⟨j + d, by omega, by omega, by rw [hn]; exact h1⟩
+      · rw [h] at h1; cases h1
+
+/-- … and while it waits with no accept-pending exchange, none appears -/
+theorem Run.persist_noPending (ρ : Run) {j : Nat} {x : Held} (hx : (ρ.st j).rx = some x)
+    (hnp : NoPending (ρ.st j).t) :
+    ∀ d, (∃ i, j ≤ i ∧ i < j + d ∧ (ρ.st (i + 1)).rx = none) ∨
+      ((ρ.st (j + d)).rx = some x ∧ NoPending (ρ.st (j + d)).t) := by
+  intro d
+  induction d with
+  | zero => exact Or.inr ⟨hx, hnp⟩
+  | succ d ih =>
+    rcases ih with ⟨i, h1, h2, h3⟩ | ⟨h, hp⟩
+    · exact Or.inl ⟨i, h1, by omega, h3⟩
+    · have hn : ρ.st (j + d + 1) = (step (ρ.st (j + d)) (ρ.op (j + d))).1 := ρ.next (j + d)
+      have hnp' : NoPending (ρ.st (j + d + 1)).t := by
+        rw [hn]
+        exact noPending_step (inv_reach (ρ.reach _)) (by rw [h]; simp) (ρ.noWrap _) hp _
+      rcases rx_step (ρ.st (j + d)) (ρ.op (j + d)) with h1 | h1 | h1
+      · right; exact ⟨by show (ρ.st (j + d + 1)).rx = some x; rw [hn, h1]; exact h, hnp'⟩
+      · left; exact ⟨j + d, by omega, by omega, by rw [hn]; exact h1⟩
+      · rw [h] at h1; cases h1
+
+theorem exists_least (p : Nat → Prop) : ∀ n, p n → ∃ m, p m ∧ ∀ j, j < m → ¬ p j := by
+  intro n
+  induction n using Nat.strongRecOn with
+  | _ n ih =>
+    intro hn
+    by_cases h : ∃ j, j < n ∧ p j
+    · obtain ⟨j, hj, hpj⟩ := h
+      exact ih j hj hpj
+    · exact ⟨n, hn, fun j hj hp => h ⟨j, hj, hp⟩⟩
+
+/-- **The receive path never wedges on an unclaimed message** (liveness, with a bound): in every fair
+run in which time does not stop, a message that waits in the RX slot and that no live `Exchange` ever
+claims has left the slot by `max (now, arrival + ACCEPT_TIMEOUT_MS) + pollA + pollO`; measured from
+its arrival that is the accept deadline plus one poll of each sweeper. -/
+theorem unclaimed_discarded_within (ρ : Run) {pollA pollO : Nat} (hfair : SweepFair ρ pollA pollO)
+    (hdiv : TimeDiverges ρ) {k : Nat} {x : Held} (hx : (ρ.st k).rx = some x)
+    (hun : ∀ j, k ≤ j → (ρ.st j).rx = some x → ¬ OwnedClaim (ρ.st j) x.m) :
+    ∃ j, k ≤ j ∧ (ρ.st (j + 1)).rx = none ∧
+      (ρ.st j).now ≤ max (ρ.st k).now (x.arrivedAt + Consts.acceptTimeoutMs) + pollA + pollO := by
+  -- A: an accept sweep at or after the deadline, not later than one poll after `max now deadline`
+  have stepA : ∃ a, k ≤ a ∧ ρ.op a = .sweepAccept ∧ x.arrivedAt + Consts.acceptTimeoutMs ≤ (ρ.st a).now ∧
+      (ρ.st a).now ≤ max (ρ.st k).now (x.arrivedAt + Consts.acceptTimeoutMs) + pollA := by
+    by_cases hk : x.arrivedAt + Consts.acceptTimeoutMs ≤ (ρ.st k).now
+    · obtain ⟨a, h1, h2, h3⟩ := hfair.1 k
+      exact ⟨a, h1, h2, Nat.le_trans hk (ρ.now_le h1), by
+        have : (ρ.st k).now ≤ max (ρ.st k).now (x.arrivedAt + Consts.acceptTimeoutMs) := Nat.le_max_left _ _
+        omega⟩
+    · obtain ⟨j1, hj1⟩ := hdiv (x.arrivedAt + Consts.acceptTimeoutMs)
+      obtain ⟨j0, hj0, hmin⟩ := exists_least (fun j => x.arrivedAt + Consts.acceptTimeoutMs ≤ (ρ.st j).now) j1 hj1
+      have hkj : k < j0 := by
+        apply Classical.byContradiction
+        intro hnot
+        have := ρ.now_le (Nat.le_of_not_lt hnot)
+        omega
+      have hprev : (ρ.st (j0 - 1)).now < x.arrivedAt + Consts.acceptTimeoutMs :=
+        Nat.lt_of_not_le (hmin (j0 - 1) (by omega))
+      obtain ⟨a, h1, h2, h3⟩ := hfair.1 (j0 - 1)
+      have ha : j0 ≤ a := by
+        apply Classical.byContradiction
+        intro hnot
+        have hae : a = j0 - 1 := by omega
+        have hn := ρ.next (j0 - 1)
+        have hj : j0 - 1 + 1 = j0 := by omega
+        rw [hj] at hn
+        have := (now_step (ρ.st (j0 - 1)) (ρ.op (j0 - 1))).2 (by rw [← hae, h2]; intro d hd; cases hd)
+        rw [← hn] at this
+        omega
+      refine ⟨a, by omega, h2, Nat.le_trans hj0 (ρ.now_le ha), ?_⟩
+      have : x.arrivedAt + Consts.acceptTimeoutMs ≤ max (ρ.st k).now (x.arrivedAt + Consts.acceptTimeoutMs) :=
+        Nat.le_max_right _ _
+      omega
+  obtain ⟨a, hka, hopa, hdl, hta⟩ := stepA
+  -- B: up to `a` the message either left the slot or still waits
+  have hpa := ρ.persist hx (a - k)
+  rw [Nat.add_sub_cancel' hka] at hpa
+  rcases hpa with ⟨i, h1, h2, h3⟩ | hxa
+  · exact ⟨i, h1, h3, by have := ρ.now_le (Nat.le_of_lt h2); omega⟩
+  · have hia := inv_reach (ρ.reach a)
+    have hna : ρ.st (a + 1) = (sweepAccept (ρ.st a)).1 := by rw [ρ.next a, hopa]; rfl
+    by_cases hnp : NoPending (ρ.st a).t
+    · -- nobody accept-pending: the next orphan sweep discards the message
+      obtain ⟨o, hao, hopo, hto⟩ := hfair.2 a
+      have hpo := ρ.persist_noPending hxa hnp (o - a)
+      rw [Nat.add_sub_cancel' hao] at hpo
+      rcases hpo with ⟨i, h1, h2, h3⟩ | ⟨hxo, hnpo⟩
+      · exact ⟨i, by omega, h3, by have := ρ.now_le (Nat.le_of_lt h2); omega⟩
+      · have hio := inv_reach (ρ.reach o)
+        have hno : ρ.st (o + 1) = (sweepOrphan (ρ.st o)).1 := by rw [ρ.next o, hopo]; rfl
+        refine ⟨o, by omega, ?_, by omega⟩
+        rw [hno]
+        refine (sweepOrphan_node hxo ?_).2
+        rcases getForRx_cases (ρ.st o).t hio.tinv x.m.port x.m.sid (ρ.st o).now with ⟨s, hs, hf, _⟩ | ⟨hnone, _⟩
+        · rw [sweepOrphan_eval hio.tinv hs hf]
+          intro i e hg hsi
+          obtain ⟨e', hsi', hfor⟩ := getExchForRx_slot s _ i hg
+          rw [hsi] at hsi'; cases hsi'
+          cases hrole : e.role with
+          | id => rfl
+          | rd => rfl
+          | rp => exact absurd hrole (hnpo s hs i e hsi)
+          | io => exact absurd ⟨s, hs, i, e, hf, hsi, hfor, by rw [hrole]; rfl⟩ (hun o (by omega) hxo)
+          | ro => exact absurd ⟨s, hs, i, e, hf, hsi, hfor, by rw [hrole]; rfl⟩ (hun o (by omega) hxo)
+        · exact sweepOrphan_eval_none hio.tinv hnone _ _
+    · -- an accept-pending exchange exists: it owns the message and its deadline has passed
+      have : ∃ s ∈ (ρ.st a).t.sessions, ∃ i e, s.slot i = some e ∧ e.role = .rp := by
+        apply Classical.byContradiction
+        intro hno
+        apply hnp
+        intro s hs i e he hr
+        exact hno ⟨s, hs, i, e, he, hr⟩
+      obtain ⟨s, hs, i, e, he, hrp⟩ := this
+      obtain ⟨r', hr', hf, hfor, hst⟩ := hia.pend s hs i e he hrp
+      rw [hxa] at hr'; cases hr'
+      refine ⟨a, hka, ?_, by omega⟩
+      rw [hna]
+      refine (sweepAccept_node hxa ?_).2
+      refine sweepAccept_fires hia.tinv hs hf he hfor hrp ?_
+      simp [Mrp.hasRxTimedOut, hst, hdl]
+
+/-! ## The dropped-exchange closer -/
+
+/-- **The closer acts whenever a dropped exchange exists** (every reachable state) -/
+theorem closer_acts_when_dropped {n : Node} (hr : Reach n) {s : Sess} (hs : s ∈ n.t.sessions) {i : Nat} {e : Exch}
+    (he : s.slot i = some e) (hd : e.role.isDropped = true) : (step n .closer).2 ≠ .closer .nothing := by
+  intro h
+  have := closer_acts (inv_reach hr).tinv n.now ⟨s.uid, i, s, hs, rfl, e, he, hd⟩
+  apply this
+  simpa [step, closer] using h
+
+/-- **A dropped exchange is closed as required** (every reachable state): one run of the closer either
+finds nothing — then no exchange is dropped —, or closes the session of a dropped exchange that still
+has a retransmission pending (the session is gone afterwards), or frees the slot of a dropped exchange
+without one, writing the standalone acknowledgement exactly if one is owed. No exchange becomes
+dropped by it, so the set of dropped exchanges strictly shrinks. -/
+theorem dropped_exchange_closed {n : Node} (hr : Reach n) :
+    CloserSpec n.t (step n .closer).1.t (n.t.sweepDropped n.now).2 :=
+  closer_effect (inv_reach hr).tinv n.now
+
 end C10
